@@ -249,33 +249,44 @@ fn gen_case(r: &mut Rng, idx: u64, budget: u64) -> Case {
     let len = r.range(10, 26) as usize;
     let mut ops = vec![];
     let mut made = 0u64;
+    // what the generator believes exists (mostly-valid ops; a refused op is still a legal history)
+    let mut live: Vec<(u64, char)> = vec![];
     for _ in 0..len {
         let roll = r.below(100);
+        let any = |r: &mut Rng, live: &[(u64, char)], made: u64| if live.is_empty() || r.chance(1, 10) { r.range(1, made.max(1)) } else { r.pick(live).0 };
+        let group = |r: &mut Rng, live: &[(u64, char)], made: u64| {
+            let gs: Vec<u64> = live.iter().filter(|(_, k)| *k == 'g').map(|(i, _)| *i).collect();
+            if gs.is_empty() || r.chance(1, 10) { r.range(1, made.max(1)) } else { *r.pick(&gs) }
+        };
         let op = if made < 3 || roll < 30 {
             made += 1;
-            match r.below(8) {
-                0 | 1 | 2 => Op::Person(made, r.next() % 100_000),
-                3 | 4 => Op::Group(made, r.next() % 100_000),
-                5 => Op::Svc(made, r.next() % 100_000),
-                6 => Op::Oauth2(made, r.next() % 100_000),
+            let (op, k) = match r.below(8) {
+                0 | 1 | 2 => (Op::Person(made, r.next() % 100_000), 'p'),
+                3 | 4 => (Op::Group(made, r.next() % 100_000), 'g'),
+                5 => (Op::Svc(made, r.next() % 100_000), 's'),
+                6 => (Op::Oauth2(made, r.next() % 100_000), 'o'),
                 _ => {
                     if r.chance(1, 2) {
-                        Op::SchemaAttr(made)
+                        (Op::SchemaAttr(made), 'a')
                     } else {
-                        Op::SchemaClass(made)
+                        (Op::SchemaClass(made), 'c')
                     }
                 }
-            }
+            };
+            live.push((made, k));
+            op
         } else if roll < 40 {
-            Op::Modify(r.range(1, made), r.next() % 100_000)
+            Op::Modify(any(r, &live, made), r.next() % 100_000)
         } else if roll < 47 {
-            Op::Delete(r.range(1, made))
+            let i = any(r, &live, made);
+            live.retain(|(j, _)| *j != i);
+            Op::Delete(i)
         } else if roll < 60 {
-            Op::BAdd(r.below(BGROUPS.len() as u64), r.range(1, made))
+            Op::BAdd(r.below(BGROUPS.len() as u64), any(r, &live, made))
         } else if roll < 67 {
             Op::BPurge(r.below(BGROUPS.len() as u64))
         } else if roll < 72 {
-            Op::BNest(r.below(BGROUPS.len() as u64), r.range(1, made))
+            Op::BNest(r.below(BGROUPS.len() as u64), group(r, &live, made))
         } else if roll < 77 {
             Op::BCredType(r.below(4))
         } else if roll < 79 {
@@ -285,7 +296,7 @@ fn gen_case(r: &mut Rng, idx: u64, budget: u64) -> Case {
         } else if roll < 88 {
             Op::BDesc(r.below(BGROUPS.len() as u64), r.next() % 1000)
         } else if roll < 94 {
-            Op::BAcp(r.below(3), r.range(1, made))
+            Op::BAcp(r.below(3), any(r, &live, made))
         } else if roll < 97 {
             Op::BAdminPw(r.next() % 1000)
         } else {
@@ -499,6 +510,9 @@ fn snapshot(rt: &tokio::runtime::Runtime, qs: &QueryServer) -> Result<Snap, Stri
 /// members (C18), spn (C22), the change id of the last write.
 const DERIVED: &[&str] = &["memberof", "directmemberof", "dynmember", "spn", "last_modified_cid"];
 
+/// Attributes of the domain entry the migration DRIVER writes (level, patch level, taint), not the upsert.
+const DRIVER_ATTRS: &[&str] = &["version", "patch_level", "domain_development_taint"];
+
 fn is_derived(a: &str) -> bool {
     DERIVED.contains(&a)
 }
@@ -622,6 +636,8 @@ struct Made {
     deleted: BTreeSet<u64>,
     /// values the history added to multi-valued attributes of builtin entries: (entry, attribute, proto value)
     builtin_added: BTreeSet<(Uuid, String, String)>,
+    /// the administrator changed the minimum credential type of idm_all_persons (ignore list of the upsert)
+    cred_type_set: bool,
 }
 
 fn apply_op(ctx: &mut Ctx, srv: &Srv, made: &mut Made, op: &Op, ct: Duration) -> Result<(), String> {
@@ -665,7 +681,11 @@ fn apply_op(ctx: &mut Ctx, srv: &Srv, made: &mut Made, op: &Op, ct: Duration) ->
                 'o' | 's' => Modify::Present(Attribute::DisplayName, Value::new_utf8s(&format!("display {i} {s}"))),
                 _ => Modify::Present(Attribute::Description, Value::new_utf8s(&format!("desc {s}"))),
             };
-            w.internal_modify_uuid(u(*i), &ModifyList::new_list(vec![m])).map_err(e)?;
+            let ml = match m {
+                Modify::Present(a, v) if a != Attribute::Member => ModifyList::new_purge_and_set(a, v),
+                other => ModifyList::new_list(vec![other]),
+            };
+            w.internal_modify_uuid(u(*i), &ml).map_err(e)?;
         }
         Op::Delete(i) => {
             w.internal_delete_uuid(u(*i)).map_err(e)?;
@@ -688,6 +708,7 @@ fn apply_op(ctx: &mut Ctx, srv: &Srv, made: &mut Made, op: &Op, ct: Duration) ->
         Op::BCredType(k) => {
             let ctp = [CredentialType::Any, CredentialType::Mfa, CredentialType::Passkey, CredentialType::AttestedPasskey][*k as usize % 4];
             w.internal_modify_uuid(UUID_IDM_ALL_PERSONS, &ModifyList::new_purge_and_set(Attribute::CredentialTypeMinimum, Value::CredentialType(ctp))).map_err(e)?;
+            made.cred_type_set = true;
         }
         Op::BCredTypePurge => {
             w.internal_modify_uuid(UUID_IDM_ALL_PERSONS, &ModifyList::new_list(vec![Modify::Purged(Attribute::CredentialTypeMinimum)])).map_err(e)?;
@@ -830,8 +851,9 @@ fn ref_uuids(attr: &str, v: &str) -> Vec<Uuid> {
     out
 }
 
-fn relatives(snap: &Snap, domain: &str) -> Vec<(String, String)> {
-    let mut bad: Vec<(String, String)> = vec![];
+/// (class, subject, description); the subject identifies the finding across two dumps
+fn relatives(snap: &Snap, domain: &str) -> Vec<(String, String, String)> {
+    let mut bad: Vec<(String, String, String)> = vec![];
     let live: BTreeMap<&Uuid, &Ent> = snap.iter().filter(|(_, e)| e.state == 0).collect();
     // C16: no live entry refers to something that is not a live entry
     for (uuid, e) in &live {
@@ -840,7 +862,7 @@ fn relatives(snap: &Snap, domain: &str) -> Vec<(String, String)> {
                 for v in vs {
                     for t in ref_uuids(a, v) {
                         if !live.contains_key(&t) {
-                            bad.push(("dangling-reference".into(), format!("{uuid} {a} -> {t}")));
+                            bad.push(("dangling-reference".into(), format!("{uuid} {a} {t}"), format!("{uuid} {a} -> {t}")));
                         }
                     }
                 }
@@ -873,10 +895,10 @@ fn relatives(snap: &Snap, domain: &str) -> Vec<(String, String)> {
         }
         let get = |a: &str| -> BTreeSet<Uuid> { e.vals.get(a).map(|vs| vs.iter().filter_map(|v| Uuid::parse_str(v).ok()).collect()).unwrap_or_default() };
         if get("directmemberof") != d {
-            bad.push(("directmemberof-wrong".into(), format!("{uuid}: stored {:?} expected {:?}", get("directmemberof"), d)));
+            bad.push(("directmemberof-wrong".into(), uuid.to_string(), format!("{uuid}: stored {:?} expected {:?}", get("directmemberof"), d)));
         }
         if get("memberof") != closure {
-            bad.push(("memberof-wrong".into(), format!("{uuid}: stored {:?} expected {:?}", get("memberof"), closure)));
+            bad.push(("memberof-wrong".into(), uuid.to_string(), format!("{uuid}: stored {:?} expected {:?}", get("memberof"), closure)));
         }
     }
     // C19: names and spns of live entries are unique; C22: spn = name@domain wherever an spn is stored
@@ -886,20 +908,20 @@ fn relatives(snap: &Snap, domain: &str) -> Vec<(String, String)> {
         if let Some(vs) = e.vals.get("name") {
             for v in vs {
                 if let Some(o) = names.insert(v.clone(), **uuid) {
-                    bad.push(("duplicate-name".into(), format!("{v}: {o} and {uuid}")));
+                    bad.push(("duplicate-name".into(), v.clone(), format!("{v}: {o} and {uuid}")));
                 }
             }
             if let Some(sp) = e.vals.get("spn") {
                 let want: BTreeSet<String> = vs.iter().map(|n| format!("{n}@{domain}")).collect();
                 if *sp != want {
-                    bad.push(("spn-wrong".into(), format!("{uuid}: spn {sp:?} name {vs:?}")));
+                    bad.push(("spn-wrong".into(), uuid.to_string(), format!("{uuid}: spn {sp:?} name {vs:?}")));
                 }
             }
         }
         if let Some(vs) = e.vals.get("spn") {
             for v in vs {
                 if let Some(o) = spns.insert(v.clone(), **uuid) {
-                    bad.push(("duplicate-spn".into(), format!("{v}: {o} and {uuid}")));
+                    bad.push(("duplicate-spn".into(), v.clone(), format!("{v}: {o} and {uuid}")));
                 }
             }
         }
@@ -981,9 +1003,23 @@ fn oracle(ctx: &mut Ctx, case: &Case, made: &Made, before: &Snap, after: &Snap, 
             ctx.oracle_fail("builtin-user-value-lost", case, json!({"uuid": uuid.to_string(), "attr": attr, "value": v}), format!("{attr} keeps {v}"), format!("{:?}", after.get(uuid).and_then(|e| e.vals.get(attr))));
         }
     }
+    // (3b) the administrator's minimum credential type (the upsert's ignore list: "if an admin has modified
+    // those values then we don't stomp them")
+    if made.cred_type_set {
+        let get = |s: &Snap| s.get(&UUID_IDM_ALL_PERSONS).and_then(|e| e.raw.get("credential_type_minimum")).cloned();
+        if get(before).is_some() && get(before) != get(after) {
+            ctx.oracle_fail("builtin-ignored-attr-overwritten", case, json!({"attr": "credential_type_minimum"}), format!("{:?}", get(before)), format!("{:?}", get(after)));
+        }
+    }
     // (4) the relatives' invariants on the whole database
-    for (class, what) in relatives(after, "example.com").into_iter().take(6) {
-        ctx.oracle_fail(&format!("inconsistent:{class}"), case, json!({"what": what}), "invariant holds after the upgrade".into(), what.clone());
+    // (an inconsistency the history had produced BEFORE the upgrade — stale membership inside a broken cycle,
+    // C17's known finding — is not the upgrade's: only findings that are new count)
+    let pre: BTreeSet<(String, String)> = relatives(before, "example.com").into_iter().map(|(c, k, _)| (c, k)).collect();
+    if !pre.is_empty() {
+        ctx.rep.count("inconsistent-before-upgrade");
+    }
+    for (class, key, what) in relatives(after, "example.com").into_iter().filter(|(c, k, _)| !pre.contains(&(c.clone(), k.clone()))).take(6) {
+        ctx.oracle_fail(&format!("inconsistent:{class}"), case, json!({"what": what, "subject": key}), "invariant holds after the upgrade".into(), what.clone());
     }
 }
 
@@ -1063,7 +1099,7 @@ fn correspond(ctx: &mut Ctx, case: &Case, srv: &Srv, before: &Snap, after: &Snap
         if let Some(p) = &pre {
             uni.extend(p.keys().cloned());
         }
-        uni.retain(|a| !is_derived(a));
+        uni.retain(|a| !is_derived(a) && !(d.uuid == UUID_DOMAIN_INFO && DRIVER_ATTRS.contains(&a.as_str())));
         for a in uni.iter() {
             names.entry(a.clone()).or_insert_with(|| format!("{:?}", Attribute::from(a.as_str())));
         }
@@ -1098,7 +1134,8 @@ fn correspond(ctx: &mut Ctx, case: &Case, srv: &Srv, before: &Snap, after: &Snap
                         continue;
                     }
                     let aid = ctx.attr_id(&names[a]);
-                    let mut ids: Vec<u64> = vs.iter().map(|v| ctx.val_id(a, v)).collect();
+                    // the base plugin marks every entry created in the reserved uuid range with class `builtin`
+                    let mut ids: Vec<u64> = vs.iter().filter(|v| !(pre.is_none() && a == "class" && v.as_str() == "builtin")).map(|v| ctx.val_id(a, v)).collect();
                     ids.sort();
                     items.push((aid, ids));
                 }
@@ -1128,8 +1165,9 @@ fn correspond_modlist(ctx: &mut Ctx, case: &Case, srv: &Srv, defs: &[Def], r: &m
         let real = match hk::gen_modlist_assert(&w, &d.entry) {
             Ok(m) => m,
             Err(e) => {
-                ctx.rep.count(&format!("modlist-err:{e}"));
-                continue;
+                ctx.rep.count("modlist-err");
+                let _ = e;
+                vec![(true, Attribute::Uuid, Some("!err".to_string()))]
             }
         };
         let mut multi = vec![];
@@ -1156,7 +1194,13 @@ fn correspond_modlist(ctx: &mut Ctx, case: &Case, srv: &Srv, defs: &[Def], r: &m
                 }
             })
             .collect();
-        let obs = if obs.is_empty() { "-".to_string() } else { obs.join(" ") };
+        let obs = if real.first().map(|x| x.2.as_deref() == Some("!err")).unwrap_or(false) {
+            "err:schema".to_string()
+        } else if obs.is_empty() {
+            "-".to_string()
+        } else {
+            obs.join(" ")
+        };
         ctx.rep.count("modlist");
         if reply != obs {
             ctx.model_fail("modlist-differs", case, json!({"uuid": d.uuid.to_string(), "line": clip(&line)}), reply, obs);
@@ -1204,7 +1248,32 @@ fn upgrade_step(rt: &tokio::runtime::Runtime, srv: &mut Option<Srv>, path: &Path
     })
 }
 
+/// `run_case_inner` with every panic of the implementation (a debug build asserts where a release build logs)
+/// turned into an oracle failure of the case.
 fn run_case(ctx: &mut Ctx, case: &Case, defs: &[Def], r: &mut Rng) -> Result<String, String> {
+    let prev_hook = std::panic::take_hook();
+    std::panic::set_hook(Box::new(|_| {}));
+    let caught = std::panic::catch_unwind(std::panic::AssertUnwindSafe(|| run_case_inner(ctx, case, defs, r)));
+    std::panic::set_hook(prev_hook);
+    match caught {
+        Ok(r) => r,
+        Err(p) => {
+            let msg = p.downcast_ref::<&str>().map(|s| s.to_string()).or_else(|| p.downcast_ref::<String>().cloned()).unwrap_or_default();
+            let clash = case.ops.contains(&Op::Clash);
+            ctx.rep.count("case-panicked");
+            ctx.oracle_fail(
+                if clash { RECOGNISED } else { "upgrade-panicked" },
+                case,
+                json!({"panic": msg, "at": "outside the upgrade step"}),
+                "every start / migration step returns".into(),
+                format!("panic: {msg}"),
+            );
+            Ok("upgrade-failed".into())
+        }
+    }
+}
+
+fn run_case_inner(ctx: &mut Ctx, case: &Case, defs: &[Def], r: &mut Rng) -> Result<String, String> {
     let prev = DOMAIN_PREVIOUS_TGT_LEVEL;
     let tgt = DOMAIN_TGT_LEVEL;
     let path = ctx.fresh_path("u");
@@ -1220,7 +1289,10 @@ fn run_case(ctx: &mut Ctx, case: &Case, defs: &[Def], r: &mut Rng) -> Result<Str
                 applied += 1;
                 ctx.rep.count(&format!("op:{}", op.show().split(' ').next().unwrap_or("")));
             }
-            Err(_) => ctx.rep.count("op-refused"),
+            Err(e) => {
+                let short: String = e.chars().take(48).collect();
+                ctx.rep.count(&format!("op-refused:{}:{short}", op.show().split(' ').next().unwrap_or("")))
+            }
         }
     }
     if case.restart_between {
@@ -1386,8 +1458,9 @@ fn run_case(ctx: &mut Ctx, case: &Case, defs: &[Def], r: &mut Rng) -> Result<Str
                 if !d.is_empty() {
                     ctx.oracle_fail("remigration-not-idempotent", case, json!({}), "running the migration twice equals once".into(), format!("{:?}", &d[..d.len().min(5)]));
                 }
-                for (class, what) in relatives(&re, "example.com").into_iter().take(3) {
-                    ctx.oracle_fail(&format!("inconsistent:{class}"), case, json!({"what": what, "at": "remigrate"}), "invariant holds".into(), what.clone());
+                let pre: BTreeSet<(String, String)> = relatives(&before, "example.com").into_iter().map(|(c, k, _)| (c, k)).collect();
+                for (class, key, what) in relatives(&re, "example.com").into_iter().filter(|(c, k, _)| !pre.contains(&(c.clone(), k.clone()))).take(3) {
+                    ctx.oracle_fail(&format!("inconsistent:{class}"), case, json!({"what": what, "subject": key, "at": "remigrate"}), "invariant holds".into(), what.clone());
                 }
             }
             Err(e) => ctx.oracle_fail("remigration-failed", case, json!({}), "ok".into(), format!("{e:?}")),
@@ -1524,7 +1597,7 @@ fn main() {
         drv,
         rep: Report::new(
             "upgrade",
-            "a case counts when the upgrade ran to the end on a database holding at least 3 user-created entries of at least 2 kinds; key = path, kinds, sizes, flags; the `levels` pairs count by (created level, target level, outcome)",
+            "a generated case counts when the upgrade ran to the end on a database holding at least 3 user-created entries of at least 2 kinds; key = path, kinds, sizes, flags; corpus replays count once per file; the `levels` pairs count by (created level, target level, outcome)",
         ),
         dir: dir.clone(),
         model_fails: 0,
@@ -1584,7 +1657,29 @@ fn main() {
             }
         }
     } else {
-        let n = args.cases(14, 160);
+        // the regression corpus first: minimised past witnesses
+        let corpus = std::env::var("VERIF_ROOT").unwrap_or_else(|_| "/verif".into()) + "/corpus/C48";
+        let mut files: Vec<PathBuf> = std::fs::read_dir(&corpus).map(|d| d.filter_map(|e| e.ok().map(|e| e.path())).filter(|p| p.extension().map(|x| x == "json").unwrap_or(false)).collect()).unwrap_or_default();
+        files.sort();
+        for f in files {
+            let Some(case) = std::fs::read_to_string(&f).ok().and_then(|t| serde_json::from_str::<J>(&t).ok()).and_then(|j| case_from_json(&j)) else {
+                ctx.rep.note(format!("corpus file {} unreadable", f.display()));
+                continue;
+            };
+            let mut r = Rng::for_case(args.seed, 0xC0);
+            match run_case(&mut ctx, &case, &defs, &mut r) {
+                Ok(k) => ctx.rep.case(Some(format!("corpus|{}|{k}", f.file_name().map(|n| n.to_string_lossy().to_string()).unwrap_or_default()))),
+                Err(e) => {
+                    ctx.rep.note(format!("corpus {}: {e}", f.display()));
+                    ctx.rep.case(None);
+                }
+            }
+            ctx.rep.count("corpus-case");
+            if ctx.rep.failures.iter().filter(|f| f.kind == "impl-vs-oracle").all(|f| f.class == RECOGNISED) {
+                ctx.oracle_failed = false;
+            }
+        }
+        let n = args.cases(10, 100);
         for i in 0..n {
             let mut r = Rng::for_case(args.seed, i);
             let case = gen_case(&mut r, i, args.budget);
